@@ -319,7 +319,7 @@ Qed.
 Definition case_ok (c : case) : Prop :=
   match c with
   | Case files builtins (ROk out) => spec_ok (merge_documents files ++ builtins) (OOk out)
-  | Case files builtins (RErr e dg) =>
+  | Case files builtins (RErr e dg _ _) =>
       spec_ok (merge_documents files ++ builtins) (OErr e) /\
       exists p, dg = Some p /\
         match e with DupOriginal _ _ p1 p2 => p = p1 \/ p = p2 | NoOriginal _ p1 => p = p1 end
@@ -328,7 +328,7 @@ Definition case_ok (c : case) : Prop :=
 
 Lemma holds_sound c : holds c = true -> case_ok c.
 Proof.
-  destruct c as [files builtins [out|e dg|]]; cbn [holds case_ok]; [apply spec_ok_b_sound| |discriminate].
+  destruct c as [files builtins [out|e dg info msg|]]; cbn [holds case_ok]; [apply spec_ok_b_sound| |discriminate].
   intros H. apply andb_prop in H. destruct H as [H1 H2]. split; [now apply spec_ok_b_sound|].
   destruct dg as [p|]; [|discriminate]. exists p. split; [reflexivity|].
   destruct e as [? ? p1 p2|? p1].
@@ -359,12 +359,14 @@ Lemma agree_sound files builtins r :
   agree (Case files builtins r) = true ->
   match r with
   | ROk out => resolve_files files builtins = inr out
-  | RErr e dg => resolve_files files builtins = inl e /\ dg = Some (diag_pos e)
+  | RErr e dg info msg => resolve_files files builtins = inl e /\ dg = Some (diag_pos e) /\ msg = error_message e
   | RPanic => False
   end.
 Proof.
-  cbn [agree]. destruct (resolve_files files builtins) as [e|out]; destruct r as [out'|e' dg|]; cbn; try discriminate.
-  - intros H. apply andb_prop in H. destruct H as [H1 H2]. apply xerr_eqb_true in H1. subst e'.
+  cbn [agree]. destruct (resolve_files files builtins) as [e|out]; destruct r as [out'|e' dg info msg|]; cbn; try discriminate.
+  - intros H. apply andb_prop in H. destruct H as [H Hm]. apply andb_prop in H. destruct H as [H _].
+    apply andb_prop in H. destruct H as [H1 H2]. apply xerr_eqb_true in H1. subst e'.
+    destruct (str_eqb_spec (error_message e) msg) as [<-|]; [|discriminate].
     destruct dg as [p|]; cbn in H2; [|discriminate]. apply pos_eqb_true in H2. now subst.
   - intros H. apply list_item_eqb_true in H. now subst.
 Qed.
